@@ -824,6 +824,7 @@ class CSSCalc(CSSFunction):
             Prod(
                 name='CALC',
                 match=lambda t, v: t == types.FUNCTION and normalize(v) == 'calc(',
+                toSeq=lambda t, tokens: (t[0], normalize(t[1])),
             ),
             PreDef.S(optional=True),
             _operant(),
